@@ -13,6 +13,8 @@ impl Path {
     pub fn new(_p: &String) -> &'static Path { &THE_PATH }
     pub fn metadata(&self) -> Result<Meta, ()> { Ok(Meta { i: 42 }) }
     pub fn to_path_buf(&self) -> PathBuf { PathBuf(7) }
+    // the one scripted directory is its own real directory
+    pub fn canonicalize(&self) -> Result<PathBuf, ()> { Ok(PathBuf(7)) }
 }
 pub fn symlink_metadata(_p: &Path) -> Result<Meta, ()> { Ok(Meta { i: 42 }) }
 /// a directory entry: its own inode (lstat) and the inode of what it points to when it is a symlink
